@@ -306,18 +306,7 @@ var lexPool = []regosym.LexEntry{
 // regoC14: results carry exactly the lexical entry of their node; verdicts do not depend on it.
 func regoC14(c *checkCtx) {
 	thorough := c.tier == "thorough"
-	var progs []regosym.Program
-	for i, p := range regosym.FamilyAtoms(false) {
-		if thorough || i%8 == 0 || i%8 == 1 {
-			progs = append(progs, p)
-		}
-	}
-	q := regosym.FamilyQuantified(false)
-	for i, p := range q {
-		if thorough || i%4 == 0 {
-			progs = append(progs, p)
-		}
-	}
+	progs := regosym.FamilyLocations(thorough)
 	scope := func(p regosym.Program) regosym.Scope {
 		sc := regosym.ScopeFor(p, 3, 2, 2)
 		sc.Lexical = lexPool
@@ -331,12 +320,7 @@ func regoC14(c *checkCtx) {
 	}
 	c.absorb(outs, "C14.location-eq-lexical")
 	// verdicts with source maps in scope equal the reference verdicts (which ignore source maps)
-	var vprogs []regosym.Program
-	for i, p := range progs {
-		if i%3 == 0 {
-			vprogs = append(vprogs, p)
-		}
-	}
+	vprogs := progs
 	outs2, err := runPrograms(regoWork(c), vprogs, scope, map[string]bool{}, 16)
 	if err != nil {
 		c.inconclusive("regosym: " + err.Error())
